@@ -122,5 +122,20 @@ class SharedDefaultFlow(ScanCheck):
                         # returning the implied value is the documented behaviour; a default must not be returned
                         out.append((f'use.{cdef.name}.__get__.{attr}.{k}',
                                     attr == '_implied_py_value' or safe_compare or in_deepcopy, {'line': node.lineno}))
+                    elif fn.name != '__init__' and attr == '_default_py_value':
+                        # any other method (__set__, update_xml_value, ...): the shared default object may be compared
+                        # (is / == / in a condition) or deep-copied, never stored, returned or passed on
+                        in_test = isinstance(parent, (ast.Compare, ast.BoolOp, ast.UnaryOp, ast.If, ast.IfExp)) and \
+                            not (isinstance(parent, ast.IfExp) and node in (parent.body, parent.orelse))
+                        # reading it into a local is fine in a method that cannot store anything into an instance
+                        stores = any((isinstance(c, ast.Call) and ((isinstance(c.func, ast.Name) and c.func.id == 'setattr')
+                                                                   or (isinstance(c.func, ast.Attribute) and c.func.attr in ('__set__', '__setattr__'))))
+                                     or (isinstance(c, ast.Attribute) and isinstance(c.ctx, ast.Store) and isinstance(c.value, ast.Name)
+                                         and c.value.id in ('instance', 'self')) for c in ast.walk(fn))
+                        local_read = isinstance(parent, ast.Assign) and all(isinstance(t, ast.Name) for t in parent.targets) \
+                            and not stores and not any(isinstance(c, ast.Return) and c.value is not None
+                                                   and not (isinstance(c.value, ast.Constant) and c.value.value is None) for c in ast.walk(fn))
+                        out.append((f'use.{cdef.name}.{fn.name}.{attr}.{k}', in_test or in_deepcopy or local_read,
+                                    {'line': node.lineno, 'how': ast.unparse(parent)[:80] if parent else ''}))
         out.append(('classes_scanned', n_classes > 30, {'classes': n_classes}))
         return out
